@@ -45,6 +45,12 @@ partial def loop (e : EngineDef) (oracleOnly : Bool) (h : IO.FS.Stream) (st : e.
   else
     let (op, impl) := splitArrow line
     let (st', v) := e.step st op impl
+    -- a Go panic recovered by the harness (result `panic:<msg>`) is a crash of real code on client input
+    let v := match v with
+      | .badop m => Verdict.badop m
+      | v => if (impl.head?.getD "").startsWith "panic" then
+               Verdict.oracle s!"C12: {op.head?.getD ""} panicked on this input: {" ".intercalate impl}"
+             else v
     let c := { c with lines := c.lines + 1 }
     match v with
     | .ok => loop e oracleOnly h st' caseId false lineNo c
